@@ -26,6 +26,7 @@ import NemoVerif.Lemmas.ErrFrameAdvVM
 import NemoVerif.Lemmas.ErrFrameCorVM
 import NemoVerif.Lemmas.ErrLeafVM
 import NemoVerif.Lemmas.ErrRestartVM
+import NemoVerif.Lemmas.ErrExtVM
 import NemoVerif.Lemmas.SlideStepVM
 
 namespace NemoVerif.C10
@@ -497,6 +498,12 @@ theorem vm_abort_postcondition (fuel : Nat) (f : FUid) (sc : List Score) (s s' :
     exception leaves it: nothing that is queued is lost (events are only added), no instance disappears, the program is kept -/
 theorem vm_abort_keeps_queue_and_instances (fuel : Nat) (f : FUid) (sc : List Score) (d : Bool) (s : VM) :
     Ext s (outState (abortFlow fuel f sc d s)) := (Ext.abortFlow fuel f sc d).app s
+
+/-- `_advance_head_front` as a whole (any heads, any outcome): nothing that is queued is lost — events are only added —, no
+    instance disappears, the program is kept.  In particular a `ColangError` pushed by an `except` branch for one head is still
+    queued when the call returns, whatever the remaining heads do. -/
+theorem vm_advance_keeps_queue_and_instances (fuel : Nat) (heads : List Key) (s : VM) :
+    Ext s (outState (advanceHeadFront fuel heads s)) := (Ext.advanceHeadFront fuel heads).app s
 
 /-- evaluating an expression, building an event from an element and computing a matching score never change the state
     (only the uid counter can move) — also when they raise.  With `vm_try_never_propagates` this is the matching-phase part:
